@@ -510,6 +510,10 @@ def __CheckMat(mat: FeArray.FeArrayALike) -> None:
 def Transpose(mat: FeArray.FeArrayALike) -> FeArray.FeArrayALike:
     """Computes transpose(mat)"""
     assert isinstance(mat, np.ndarray) and mat.ndim >= 2
+    if isinstance(mat, FeArray) and mat._ndim < 2:
+        # a scalar or vector field has no matrix axes: as with `.T`, nothing to swap
+        # (swapping would exchange the element / Gauss point axes)
+        return mat
     res: FeArray.FeArrayALike = np.swapaxes(mat, -1, -2)
 
     if isinstance(mat, FeArray):
